@@ -61,10 +61,11 @@ Theorem settings_precedence_db : forall w i op cfg,
 Proof. exact Settings.settings_precedence_db. Qed.
 Print Assumptions settings_precedence_db.
 
-(** "--no-database": the recipe-book name is empty whatever the other sources say *)
+(** "--no-database": the recipe book is the null device /dev/null whatever the other sources say
+    (fix F24; it used to be the empty name) *)
 Theorem settings_precedence_no_database : forall w i op cfg,
   load w i = inr op -> load_config w i = inr cfg ->
-  i_no_database i = true -> op_db op = [].
+  i_no_database i = true -> op_db op = dev_null.
 Proof. exact Settings.settings_precedence_no_database. Qed.
 Print Assumptions settings_precedence_no_database.
 
@@ -89,14 +90,15 @@ Theorem settings_precedence_depth : forall w i op cfg,
 Proof. exact Settings.settings_precedence_depth. Qed.
 Print Assumptions settings_precedence_depth.
 
-(** "current date": --today in the effective layout (midnight UTC), else the file's Now, else the clock;
-    it has no environment variable *)
+(** "current date": --today in the effective layout (midnight UTC), else the CALENDAR DAY of the file's Now
+    (in its own zone), else the calendar day of the clock -- both at midnight UTC too (fix F25; it used to be
+    the instant); it has no environment variable *)
 Theorem settings_precedence_now : forall w i op cfg,
   load w i = inr op -> load_config w i = inr cfg ->
   exists toks, tokenize (op_fmt op) = Some toks /\
     match i_f_today i with
     | Some s => exists c, parse_date toks s = Some c /\ op_now op = time_of_civil c
-    | None => op_now op = or_default (first_some [ce_now cfg]) (w_clock w)
+    | None => op_now op = time_of_civil (civ (or_default (first_some [ce_now cfg]) (w_clock w)))
     end.
 Proof. exact Settings.settings_precedence_now. Qed.
 Print Assumptions settings_precedence_now.
@@ -104,7 +106,7 @@ Print Assumptions settings_precedence_now.
 (** all five at once *)
 Theorem settings_precedence : forall w i op cfg,
   load w i = inr op -> load_config w i = inr cfg ->
-  op_db op = (if i_no_database i then []
+  op_db op = (if i_no_database i then dev_null
               else or_default (first_some [i_f_db i; i_e_db i; file_string (ce_db cfg)]) default_db) /\
   op_log op = or_default (first_some [i_f_log i; i_e_log i; file_string (ce_log cfg)]) default_log /\
   op_fmt op = or_default (first_some [i_f_fmt i; i_e_fmt i; file_string (ce_fmt cfg)]) default_fmt /\
@@ -112,12 +114,31 @@ Theorem settings_precedence : forall w i op cfg,
   exists toks, tokenize (op_fmt op) = Some toks /\
     match i_f_today i with
     | Some s => exists c, parse_date toks s = Some c /\ op_now op = time_of_civil c
-    | None => op_now op = or_default (first_some [ce_now cfg]) (w_clock w)
+    | None => op_now op = time_of_civil (civ (or_default (first_some [ce_now cfg]) (w_clock w)))
     end.
 Proof. exact Settings.settings_precedence. Qed.
 Print Assumptions settings_precedence.
 
-(** a flag or variable given as the EMPTY string is still "set" and wins *)
+(** fix F25: the loaded current date is the midnight-UTC time of a civil date in all three cases ... *)
+Theorem loaded_now_is_a_day : forall w i op, load w i = inr op -> op_now op = time_of_civil (civ (op_now op)).
+Proof. exact Settings.loaded_now_is_a_day. Qed.
+Print Assumptions loaded_now_is_a_day.
+
+(** ... and a world whose clock (or configured Now, which wins) shows the civil date D loads the same settings
+    as the same invocation with --today D, for every way [s] of writing D in the effective layout: keywords
+    and periods behave for the clock day exactly as for --today of that day
+    ([with_today i s] = [i] with --today [s]: Proofs/Settings.v) *)
+Theorem clock_day_as_today : forall w i cfg toks s,
+  load_config w i = inr cfg ->
+  tokenize (or_default (first_some [i_f_fmt i; i_e_fmt i; file_string (ce_fmt cfg)]) default_fmt) = Some toks ->
+  i_f_today i = None ->
+  parse_date toks s = Some (civ (or_default (first_some [ce_now cfg]) (w_clock w))) ->
+  load w i = load w (with_today i s).
+Proof. exact Settings.clock_day_as_today. Qed.
+Print Assumptions clock_day_as_today.
+
+(** a flag or variable given as the EMPTY string is still "set" and wins (the empty name is then a file that
+    cannot be opened: [empty_log_name_fails], [empty_book_name_fails] below) *)
 Theorem empty_flag_still_wins : forall w i op cfg,
   load w i = inr op -> load_config w i = inr cfg ->
   (i_no_database i = false -> i_f_db i = Some [] -> op_db op = []) /\
@@ -160,9 +181,9 @@ Theorem no_database_is_empty_book_same_world : forall NM w i p,
 Proof. exact SettingsNoDb.no_database_is_empty_book_same_world. Qed.
 Print Assumptions no_database_is_empty_book_same_world.
 
-(** stats prints the book's file name, so it is stated apart: no book file is
+(** stats prints the book's file name, so it is stated apart: no book file of the world is
     opened (the outcome depends on the configuration file and the log only) and
-    the report says "0 records" under an empty name *)
+    the report says "0 records" under the name of the null device *)
 Theorem no_database_stats : forall NM w i,
   i_cmd i = CStats ->
   (forall w', same_but_fs w w' ->
@@ -171,6 +192,25 @@ Theorem no_database_stats : forall NM w i,
               run NM w' (with_no_database i) = run NM w (with_no_database i)) /\
   (out_status (run NM w (with_no_database i)) = Ok ->
    exists rest, out_stdout (run NM w (with_no_database i))
-                = b "  Database file:      " ++ [c_lf] ++ b "  Database records:   0" ++ [c_lf] ++ rest).
+                = b "  Database file:      " ++ dev_null ++ [c_lf] ++ b "  Database records:   0" ++ [c_lf] ++ rest).
 Proof. exact SettingsNoDb.no_database_stats. Qed.
 Print Assumptions no_database_stats.
+
+(** fix F24: an EMPTY file name is a file that cannot be opened (it used to stand for "nothing to read"):
+    every command that reads the log fails with the open error when the log's name is empty ... *)
+Theorem empty_log_name_fails : forall NM w i op,
+  load w i = inr op -> op_log op = [] ->
+  In (i_cmd i) [CReg; CBal; CUnresolved; CTotals; CQuantity; CCsvLog; CPrint; CStats] ->
+  run NM w i = {| out_stdout := []; out_status := Failed EOpen |}.
+Proof. exact SettingsNoDb.empty_log_name_fails. Qed.
+Print Assumptions empty_log_name_fails.
+
+(** ... and every command that reads the book when the book's name is empty -- which it is only WITHOUT
+    --no-database (e.g. -d ""): --no-database makes it the null device *)
+Theorem empty_book_name_fails : forall NM w i op,
+  load w i = inr op -> op_db op = [] ->
+  (In (i_cmd i) [CReg; CBal; CUnresolved; CTotals; CCsvDb; CCsvDbResolved]
+   \/ exists x, x <> [] /\ i_cmd i = CElementTotal x) ->
+  run NM w i = {| out_stdout := []; out_status := Failed EOpen |}.
+Proof. exact SettingsNoDb.empty_book_name_fails. Qed.
+Print Assumptions empty_book_name_fails.
